@@ -17,7 +17,7 @@ Notation effb := (effb p).
 Notation sigb := (sigb p).
 Notation WF := (WF p).
 Notation Inv := (Inv p).
-Notation InvW := (InvW p).
+Notation Rest := (Rest p).
 Notation cur := (cur p).
 Notation PullRel := (PullRel p).
 Notation USpec := (USpec p).
@@ -49,7 +49,7 @@ Proof.
   - intros y Hy _. destruct (fr_same _ _ _ _ F y) as (_&Hr&Hs&_). auto.
   - intros y Hy. destruct (fr_same _ _ _ _ F y) as (_&_&_&Hsu&_).
     destruct (fr_other _ _ _ _ F y ltac:(lia)) as (Hca&Hle). auto.
-  - intros k. destruct (fr_same _ _ _ _ F k) as (_&_&_&_&?&?&?&?&?). auto.
+  - intros k. destruct (fr_same _ _ _ _ F k) as (_&_&_&_&?&?&?&?&?&?). repeat split; assumption.
   - apply F.
 Qed.
 
@@ -65,20 +65,23 @@ Lemma memo_update_spec i cm e U R :
   decl_of p i = DMemo cm e -> USpec i U -> RSpec i R ->
   forall c s stk s' ch,
     Inv stk i s -> ctx_ok stk c -> ~ In i stk -> (forall k, In k stk -> i < k) ->
+    (forall k, In k stk -> In i (srcs (getn s k)) ->
+               In i (tracked_of (rlog (getn s k))) \/ obs_of c = Some k) ->
     memo_update p U R c i cm e s = (s', ch) ->
     Inv stk i s' /\ PullRel (S i) stk None s s' /\ subs (getn s' i) = subs (getn s i) /\
-    st (getn s' i) = Clean /\ cache (getn s' i) <> None.
+    st (getn s' i) = Clean /\ cache (getn s' i) <> None /\
+    (ch = true -> forall k, In i (tracked_of (rlog (getn s' k))) -> since (getn s' k) <> []).
 Proof.
-  intros Hd HU HR c s stk s' ch I C Hni Hgt Hmu.
+  intros Hd HU HR c s stk s' ch I C Hni Hgt Hpend Hmu.
   assert (Hm : memob i = true) by (unfold GraphInvariant.memob; rewrite Hd; auto).
   assert (Hil : i < length p).
   { apply (decl_in_range p). intros tk iv; rewrite Hd; discriminate. }
   assert (Hok : expr_ok p i false e).
   { pose proof (wfp i Hil) as H. rewrite Hd in H. exact H. }
-  assert (Iw : InvW stk i s) by apply I.
-  assert (W : WF s) by apply Iw.
-  assert (HL1 : L1 s i) by (apply Iw; auto).
-  assert (HMc : MemoOKc p s i) by (apply Iw; auto).
+  assert (W : WF s) by apply I.
+  destruct (inv_rest _ _ _ _ I i Hni) as (HL1 & Hunc & _ & Hrcl & Hrwr).
+  unfold uncached_ok, GraphInvariant.needs_clean, GraphInvariant.will_run in Hunc, Hrcl, Hrwr.
+  rewrite Hd in Hunc, Hrcl, Hrwr. cbn [needs_clean_n will_run_n] in Hrcl, Hrwr.
   unfold memo_update in Hmu.
   (* the decision *)
   set (dec := match st (getn s i) with
@@ -90,35 +93,48 @@ Proof.
             Inv stk i sa /\ PullRel i stk None s sa /\
             (need = false -> st (getn sa i) <> Dirty /\ cache (getn s i) <> None /\
                forall x v, In (x, v, true) (rlog (getn sa i)) -> memob x = true -> st (getn sa x) = Clean) /\
-            (need = true -> st (getn s i) <> Clean)).
+            (need = true -> st (getn s i) <> Clean /\
+               (cache (getn sa i) = None \/ since (getn sa i) <> []))).
   { unfold dec. destruct (st (getn s i)) eqn:Est.
-    - exists s, false. split; auto. split; auto. split; [apply PullRel_refl|]. split; [|discriminate].
-      intros _. unfold GraphInvariant.MemoOKc in HMc. split; [congruence|].
-      destruct (cache (getn s i)); [|destruct HMc; congruence]. split; [discriminate|].
-      intros x v Hx Hmx. eapply HMc; eauto.
-    - destruct (any_src U c i (srcs (getn s i)) s) as [sa need] eqn:Ea.
-      destruct (any_src_spec p i U HU (srcs (getn s i)) c s stk sa need) as (Ia & Pa & Hn); auto.
+    - assert (Hcn : cache (getn s i) <> None).
+      { intros E. destruct (Hunc E). congruence. }
+      exists s, false. split; auto. split; auto. split; [apply PullRel_refl|]. split; [|discriminate].
+      intros _. split; [congruence|]. split; auto.
+      intros x v Hx Hmx. eapply Hrcl; eauto.
+    - assert (Hcn : cache (getn s i) <> None).
+      { intros E. destruct (Hunc E). congruence. }
+      destruct (any_src U c i (srcs (getn s i)) s) as [sa need] eqn:Ea.
+      destruct (any_src_spec p i U HU (srcs (getn s i)) c s stk sa need) as (Ia & Pa & Hn & Hy); auto.
       { intros x Hx. eapply wf_srclt; eauto. }
       { congruence. }
-      exists sa, need. split; auto. split; auto. split; auto. split; [|intros; discriminate].
-      intros Hf. destruct (Hn Hf) as [Hnd Hall]. split; auto.
-      unfold GraphInvariant.MemoOKc in HMc. split.
-      { destruct (cache (getn s i)); [discriminate|]. destruct HMc; congruence. }
-      intros x v Hx Hmx. destruct (pr_above _ _ _ _ _ _ Pa i (le_n i)) as (Hr & _); [discriminate|].
-      rewrite Hr in Hx. apply Hall; auto. rewrite HL1. apply in_tracked_of. eauto.
+      destruct (pr_above _ _ _ _ _ _ Pa i (le_n i)) as (Hr & _); [discriminate|].
+      exists sa, need. split; auto. split; auto. split; auto. split.
+      + intros Hf. destruct (Hn Hf) as [Hnd Hall]. split; auto. split; auto.
+        intros x v Hx Hmx. rewrite Hr in Hx. apply Hall; auto. rewrite HL1. apply in_tracked_of. eauto.
+      + intros Ht. split; [congruence|]. right.
+        destruct (pr_above2 _ _ _ _ _ _ Pa i (le_n i)) as (Hca & _).
+        destruct (Hy Ht) as [Hds|(x & Hx1 & Hx2)].
+        * destruct (inv_rest _ _ _ _ Ia i Hni) as (_&_&_&_&Hw).
+          apply Hw. unfold GraphInvariant.will_run. rewrite Hd. cbn [will_run_n]. split; auto. congruence.
+        * apply Hx2. rewrite Hr, <- HL1. exact Hx1.
     - exists s, true. split; auto. split; auto. split; [apply PullRel_refl|]. split; [discriminate|].
-      intros _; discriminate. }
+      intros _. split; [discriminate|].
+      destruct (cache (getn s i)) eqn:Ec; auto. right. apply Hrwr. split; auto. discriminate. }
   destruct Hdec as (sa & need & Edec & Ia & Pa & Hkeep & Hrun). rewrite Edec in Hmu.
   destruct (pr_above2 _ _ _ _ _ _ Pa i (le_n i)) as (Hcaa & Hlea & Hsua).
   destruct need.
   - (* ---- the body runs *)
-    assert (Hnc : st (getn s i) <> Clean) by auto.
+    destruct (Hrun eq_refl) as (Hnc & Hcause).
     assert (Hnca : st (getn sa i) <> Clean).
     { intros Hc. apply Hnc. apply st_le_clean. rewrite <- Hc. exact Hlea. }
     set (old := cache (getn sa i)) in *.
     set (fr := match old with None => true | Some _ => false end) in *.
-    destruct (memo_begin p stk i fr sa Ia Hni Hgt Hil (fun _ => Hnca))
-      as (Ic & L1c & Pc & Hsuc & Hcac & Hstc & Hfrc).
+    assert (Hfrc : fr = true \/ since (getn sa i) <> []).
+    { unfold fr. destruct Hcause as [->|?]; auto. }
+    assert (Hne : effb i = true -> edirty (getn sa i) = false).
+    { intros He. unfold GraphInvariant.effb in He. rewrite Hd in He. discriminate. }
+    destruct (memo_begin p stk i fr sa Ia Hni Hgt Hil (fun _ => Hnca) Hne Hfrc)
+      as (Ic & L1c & Pc & Hsuc & Hcac & Hstc & Hfrm & _).
     set (sc := begin_run fr i (clear_sources i sa)) in *.
     destruct (eval p R false (Some i, true) e sc) as [se v] eqn:Eev.
     assert (Cc : ctx_ok (i :: stk) (Some i, true)) by (unfold ctx_ok; cbn; eauto).
@@ -131,16 +147,16 @@ Proof.
     assert (Hfr_log : forall k, In k stk -> rlog (getn se k) = rlog (getn s k)).
     { intros k Hk. pose proof (Hgt k Hk) as Hik.
       destruct (pr_above _ _ _ _ _ _ Pe k ltac:(lia)) as (Hr1 & _). { intros E; inversion E; lia. }
-      destruct (Hfrc k Hk) as (Hr2 & _).
+      destruct (Hfrm k Hk) as (Hr2 & _).
       destruct (pr_above _ _ _ _ _ _ Pa k ltac:(lia)) as (Hr3 & _). { discriminate. }
       congruence. }
     assert (Hnl : forall k, In k stk -> ~ In i (tracked_of (rlog (getn se k)))).
     { intros k Hk Hin. rewrite (Hfr_log k Hk) in Hin. apply in_tracked_of in Hin as (w & Hw).
-      apply Hnc. eapply (inv_run_clean _ _ _ _ Iw k Hk); eauto. }
+      apply Hnc. destruct (inv_frame _ _ _ _ I k Hk) as (_&F2&_). eapply F2; eauto. }
     assert (Hroots : forall x, In x (subs (getn se i)) -> memob x = true -> st (getn se x) <> Clean).
     { intros x Hx Hmx Hc. rewrite Hsue, Hsuc, Hsua in Hx.
       assert (Hix : i < x) by (eapply wf_sub_gt; eauto).
-      assert (Us : UpClosed p s) by (eapply InvW_UpClosed; eauto).
+      assert (Us : UpClosed p s) by (eapply Inv_UpClosed; eauto).
       apply (Us i x Hm Hnc Hx Hmx).
       apply st_le_clean. rewrite <- Hc.
       destruct (pr_above2 _ _ _ _ _ _ Pa x ltac:(lia)) as (_ & L1' & _).
@@ -149,20 +165,27 @@ Proof.
       eapply st_le_trans; [exact L1'|]. eapply st_le_trans; [exact L2'|exact L3']. }
     assert (Hobs : forall o, obs_of c = Some o -> In o stk).
     { intros o Ho. apply (ctx_ok_obs stk c o C Ho). }
-    destruct (memo_finish p stk i cm c v se Ie L1e Hm Hni Hnl Hroots Hobs) as (If & Ff & Hstf & Hcaf).
-    cbv zeta in If, Ff, Hstf, Hcaf.
+    assert (Hpe : forall k, In k stk -> obs_is c k = false -> ~ In k (subs (getn se i))).
+    { intros k Hk Hsk Hin. rewrite Hsue, Hsuc, Hsua in Hin.
+      assert (Hsrc : In i (srcs (getn s k))) by (eapply wf_sub_src; eauto).
+      destruct (Hpend k Hk Hsrc) as [Hlog|Ho].
+      - apply in_tracked_of in Hlog as (w & Hw). apply Hnc.
+        destruct (inv_frame _ _ _ _ I k Hk) as (_&F2&_). eapply F2; eauto.
+      - unfold obs_is in Hsk. rewrite Ho in Hsk. rewrite Nat.eqb_refl in Hsk. discriminate. }
+    destruct (memo_finish p stk i cm c v se Ie L1e Hm Hni Hnl Hroots Hobs Hpe) as (If & Ff & Hstf & Hcaf & Hcsf).
+    cbv zeta in If, Ff, Hstf, Hcaf, Hcsf.
     rewrite changed_of_eq in Hmu. rewrite <- Hold in Hmu.
     set (sfin := if changed_of cm (cache (getn se i)) v
                  then fold_left (fun s0 k => if obs_is c k then s0 else mark_dirty p k s0)
                         (subs (getn (updn i (fun n => set_st (set_cache n (Some v)) Clean) (emit (EvEnd i v) se)) i))
                         (add_cause i (updn i (fun n => set_st (set_cache n (Some v)) Clean) (emit (EvEnd i v) se)))
                  else updn i (fun n => set_st (set_cache n (Some v)) Clean) (emit (EvEnd i v) se)) in *.
-    assert (Es' : s' = sfin).
-    { unfold sfin. destruct (changed_of cm (cache (getn se i)) v); inversion Hmu; reflexivity. }
-    subst s'.
+    assert (Es' : s' = sfin /\ ch = changed_of cm (cache (getn se i)) v).
+    { unfold sfin. destruct (changed_of cm (cache (getn se i)) v); inversion Hmu; auto. }
+    destruct Es' as [-> ->].
     assert (Hnc_e : memob i = true -> st (getn se i) <> Clean).
-    { intros _. apply (inv_run_nc _ _ _ _ (inv_w _ _ _ _ Ie) i); auto. left; auto. }
-    split; auto. split; [|split; [|split]].
+    { intros _. destruct (inv_frame _ _ _ _ Ie i (or_introl eq_refl)) as (_&_&_&_&_&F6&_). auto. }
+    split; auto. split; [|split; [|split; [|split]]].
     + eapply PullRel_trans; [eapply PullRel_weaken; [|exact Pa]; lia|].
       eapply PullRel_trans; [exact Pc|].
       eapply PullRel_trans; [apply PullRel_pop; [exact Pe|exact Hnce]|].
@@ -170,34 +193,36 @@ Proof.
     + destruct (fr_same _ _ _ _ Ff i) as (_&_&_&Hsuf&_). congruence.
     + exact Hstf.
     + rewrite Hcaf. discriminate.
+    + exact Hcsf.
   - (* ---- nothing changed *)
     destruct (Hkeep eq_refl) as (Hnd & Hcn & Hall).
     inversion Hmu; subst s' ch. clear Hmu.
-    destruct (memo_keep p stk i sa Ia Hm Hni Hnd Hall) as (Ik & Pk & Hsuk & Hstk & Hcak).
-    split; auto. split; [|split]; auto.
+    assert (Hcna : cache (getn sa i) <> None) by (rewrite Hcaa; exact Hcn).
+    destruct (memo_keep p stk i sa Ia Hm Hni Hnd Hcna Hall) as (Ik & Pk & Hsuk & Hstk & Hcak).
+    split; auto. split; [|split; [|split; [|split]]]; auto.
     + eapply PullRel_trans; [eapply PullRel_weaken; [|exact Pa]; lia|exact Pk].
     + congruence.
+    + discriminate.
 Qed.
 
 (* ---------------------------------------------------------------- update of node i, as seen by callers *)
 Lemma frames_above stk t i s : Inv stk t s -> i < t ->
   ~ In i stk /\ (forall k, In k stk -> i < k).
 Proof.
-  intros [Iw _] Hit. split.
-  - intros Hin. pose proof (inv_run_ge _ _ _ _ Iw i Hin). lia.
-  - intros k Hk. pose proof (inv_run_ge _ _ _ _ Iw k Hk). lia.
+  intros I Hit. split.
+  - intros Hin. pose proof (frame_ge p stk t s i I Hin). lia.
+  - intros k Hk. pose proof (frame_ge p stk t s k I Hk). lia.
 Qed.
 
 Lemma Inv_restore stk t i s s' :
   Inv stk t s -> i < t -> Inv stk i s' -> PullRel (S i) stk None s s' -> Inv stk t s'.
 Proof.
   intros I Hit I' P. destruct (frames_above stk t i s I Hit) as (_ & Hgt).
-  destruct I as [Iw _].
   apply (Inv_raise p stk t i s' I').
   - intros k x Hk Hx. destruct (pr_above _ _ _ _ _ _ P k) as (Hr & Hs).
     { pose proof (Hgt k Hk). lia. } { discriminate. }
-    rewrite Hs in Hx. rewrite Hr. eapply inv_run_src; eauto.
-  - intros k Hk. eapply inv_run_ge; eauto.
+    rewrite Hs in Hx. rewrite Hr. destruct (inv_frame _ _ _ _ I k Hk) as (_&_&F3&_). apply F3; auto.
+  - intros k Hk. apply (frame_ge p stk t s k I Hk).
 Qed.
 
 Lemma node_update_spec i U R : USpec i U -> RSpec i R ->
@@ -206,15 +231,20 @@ Lemma node_update_spec i U R : USpec i U -> RSpec i R ->
     node_update p U R c i s = (s', ch) ->
     Inv stk t s' /\ PullRel (S i) stk None s s' /\
     subs (getn s' i) = subs (getn s i) /\
-    (memob i = true -> st (getn s' i) = Clean /\ cache (getn s' i) <> None).
+    (memob i = true -> st (getn s' i) = Clean /\ cache (getn s' i) <> None) /\
+    (ch = true -> forall k, In i (tracked_of (rlog (getn s' k))) -> since (getn s' k) <> []).
 Proof.
   intros HU HR c s stk t s' ch Hit I C Hn. unfold node_update in Hn.
   destruct (decl_of p i) eqn:Hd;
     try (inversion Hn; subst; split; auto; split; [apply PullRel_refl|]; split; auto;
-         unfold GraphInvariant.memob; rewrite Hd; discriminate).
+         split; [unfold GraphInvariant.memob; rewrite Hd; discriminate|discriminate]).
   destruct (frames_above stk t i s I Hit) as (Hni & Hgt).
-  destruct (memo_update_spec i c0 e U R Hd HU HR c s stk s' ch (Inv_lower p stk t i s ltac:(lia) I) C Hni Hgt Hn)
-    as (I' & P' & Hsu & Hst & Hca).
+  assert (Hpend : forall k, In k stk -> In i (srcs (getn s k)) ->
+                  In i (tracked_of (rlog (getn s k))) \/ obs_of c = Some k).
+  { intros k Hk Hin. destruct (inv_frame _ _ _ _ I k Hk) as (_&_&F3&_).
+    destruct (F3 i Hin); auto. lia. }
+  destruct (memo_update_spec i c0 e U R Hd HU HR c s stk s' ch (Inv_lower p stk t i s ltac:(lia) I) C Hni Hgt Hpend Hn)
+    as (I' & P' & Hsu & Hst & Hca & Hcs).
   split; [eapply Inv_restore; eauto|]. split; auto.
 Qed.
 
@@ -238,17 +268,22 @@ Proof.
     set (s1 := track c i s) in *.
     destruct (memo_update p U R c i cm e s1) as [s2 ch] eqn:Emu.
     inversion Hr; subst s' v. clear Hr.
-    destruct (memo_update_spec i cm e U R Hd HU HR c s1 stk s2 ch I1 C Hni Hgt Emu)
-      as (I2 & P2 & _ & Hst2 & Hca2).
+    assert (Hpend : forall k, In k stk -> In i (srcs (getn s1 k)) ->
+                    In i (tracked_of (rlog (getn s1 k))) \/ obs_of c = Some k).
+    { intros k Hk Hin0. destruct (Nat.eq_dec k o) as [->|Hko]; auto.
+      rewrite Hsro in Hin0 by auto. rewrite Hrl.
+      destruct (inv_frame _ _ _ _ I k Hk) as (_&_&F3&_). destruct (F3 i Hin0); auto. lia. }
+    destruct (memo_update_spec i cm e U R Hd HU HR c s1 stk s2 ch I1 C Hni Hgt Hpend Emu)
+      as (I2 & P2 & _ & Hst2 & Hca2 & _).
     destruct (ctx_ok_obs stk c o C Ho) as [_ Hin].
     assert (Hio : i < o) by (apply Hgt; auto).
     destruct (pr_above _ _ _ _ _ _ P2 o ltac:(lia)) as (Hro2 & Hso2). { discriminate. }
-    destruct I as [Iw Iv].
-    destruct (Inv_log_tracked p stk t c o i (cache_val (getn s2 i)) s2 I2 Hw Hin) as (I3 & T3 & P3); auto.
+    destruct (Inv_log_tracked p stk t c o i (cache_val (getn s2 i)) s2 I2 C Hw) as (I3 & T3 & P3); auto.
     + intros k x Hk Hko Hx. pose proof (Hgt k Hk).
       destruct (pr_above _ _ _ _ _ _ P2 k ltac:(lia)) as (Hr2 & Hs2). { discriminate. }
-      rewrite Hs2, Hsro in Hx by auto. rewrite Hr2, Hrl. eapply inv_run_src; eauto.
-    + intros k Hk. eapply inv_run_ge; eauto.
+      rewrite Hs2, Hsro in Hx by auto. rewrite Hr2, Hrl.
+      destruct (inv_frame _ _ _ _ I k Hk) as (_&_&F3&_). apply F3; auto.
+    + intros k Hk. apply (frame_ge p stk t s k I Hk).
     + rewrite Hso2, Hro2. exact Hp.
     + unfold GraphInvariant.cur. rewrite Hd. reflexivity.
     + split; auto. split; auto. split.
@@ -262,8 +297,12 @@ Proof.
     rewrite Hs1 in Hr.
     destruct (memo_update p U R c i cm e s) as [s2 ch] eqn:Emu.
     inversion Hr; subst s' v. clear Hr.
-    destruct (memo_update_spec i cm e U R Hd HU HR c s stk s2 ch (Inv_lower p stk t i s ltac:(lia) I) C Hni Hgt Emu)
-      as (I2 & P2 & _ & Hst2 & Hca2).
+    assert (Hpend : forall k, In k stk -> In i (srcs (getn s k)) ->
+                    In i (tracked_of (rlog (getn s k))) \/ obs_of c = Some k).
+    { intros k Hk Hin0. destruct (inv_frame _ _ _ _ I k Hk) as (_&_&F3&_).
+      destruct (F3 i Hin0); auto. lia. }
+    destruct (memo_update_spec i cm e U R Hd HU HR c s stk s2 ch (Inv_lower p stk t i s ltac:(lia) I) C Hni Hgt Hpend Emu)
+      as (I2 & P2 & _ & Hst2 & Hca2 & _).
     assert (I2' : Inv stk t s2) by (eapply Inv_restore; eauto).
     assert (T2 : TopOK c s2).
     { unfold TopOK in *. destruct (fst c) as [w|] eqn:Hw; auto.
